@@ -214,6 +214,35 @@ Proof.
   apply C16_plat; auto. rewrite Va, Vb. exact L.
 Qed.
 
+(* ... and whenever compare answers LOWER_OR_EQUAL for two specs with platforms - through the "same spec" test, the version test
+   or the version-less OS class (Windows) - self's platform tags are nested in the target's *)
+Lemma os_eqb_eq o o' : os_eqb o o' = true -> o = o'.
+Proof.
+  destruct o, o'; cbn; try discriminate; try reflexivity; intros H; apply andb_prop in H as [H1 H2];
+    apply N.eqb_eq in H1; apply N.eqb_eq in H2; subst; reflexivity.
+Qed.
+Theorem C16_cmp_loe a b pa pb :
+  compare a b = Ret LOWER_OR_EQUAL -> e_platform a = Some pa -> e_platform b = Some pb ->
+  supported (p_os pa) (p_arch pa) -> supported (p_os pb) (p_arch pb) ->
+  incl (C09.tags_of (p_os pa) (p_arch pa)) (C09.tags_of (p_os pb) (p_arch pb)).
+Proof.
+  intros H Ea Eb Sa Sb. unfold compare, bind in H. rewrite Ea, Eb in H.
+  destruct (P.spec_eq _ _) as [s| |]; try discriminate.
+  destruct (s && opt_eqb platform_eqb (Some pa) (Some pb) && _) eqn:Same.
+  - apply andb_prop in Same as [Same _]. apply andb_prop in Same as [_ Pe]. cbn [opt_eqb] in Pe. unfold platform_eqb in Pe.
+    apply andb_prop in Pe as [Po Pa]. apply os_eqb_eq in Po. apply arch_eqb_eq in Pa. rewrite Po, Pa. apply incl_refl.
+  - destruct (P.spec_and _ _) as [r| |]; try discriminate.
+    destruct (P.spec_is_empty r) as [em| |]; try discriminate.
+    destruct em; [discriminate|].
+    destruct (match e_impl a, e_impl b with Some x, Some y => negb (impl_eqb x y) | _, _ => false end); [discriminate|].
+    destruct (arch_eqb (p_arch pa) (p_arch pb)) eqn:EA; [|discriminate]. cbn [negb] in H.
+    destruct (same_os_class (p_os pa) (p_os pb)) eqn:EO; [|discriminate]. cbn [negb] in H.
+    apply arch_eqb_eq in EA. rewrite <- EA in *.
+    apply C16_plat; [exact EO | exact Sa | exact Sb |].
+    destruct (os_version (p_os pa)) as [va|], (os_version (p_os pb)) as [vb|]; try exact I.
+    destruct (pair_leb va vb); [reflexivity | discriminate].
+Qed.
+
 (* INCOMPATIBLE is symmetric *)
 Theorem C16_cmp_incompatible_sym a b :
   canon (requires_python a) -> canon (requires_python b) ->
@@ -257,6 +286,6 @@ Proof.
      destruct (pair_leb _ _); discriminate).
 Qed.
 
-Definition C16_all := (C16_python, C16_plat, C16_cmp_refl, C16_cmp_not_both_higher, C16_cmp_higher_nested, C16_cmp_loe_nested,
+Definition C16_all := (C16_python, C16_plat, C16_cmp_refl, C16_cmp_not_both_higher, C16_cmp_higher_nested, C16_cmp_loe_nested, C16_cmp_loe,
                        C16_cmp_incompatible_sym, compare_total).
 Redirect "C16.assumptions" Print Assumptions C16_all.
